@@ -177,6 +177,20 @@ CHECKS = {
    note='Axioms: none. Decimal printing through Coq\'s DecimalN (N.to_uint), injectivity from its of_to lemma.',
    tech='Coq invariant proof by induction over operation histories + regenerated nsdict + correspondence',
    ref='5/C14'),
+ 'C15': dict(
+   text='Proof (Coq): regular expressions over code points with a derivative matcher proved to decide the language (induction over the '
+        'expression and the word); the converters of attrconverters.py by kind (identity, boolean, enumeration, anchored pattern, '
+        'length-or-percent, NCName rewriting), each function classified from its source and its constants read from the source; the '
+        'lexical space the schema gives each of the 3422 (element, attribute) instances. Proved for every instance and EVERY string: a '
+        'value of the lexical space is accepted and stored unchanged; converting a stored value again is a no-op (every converter); a '
+        'validating converter raises ValueError on every string outside the type; no pattern is applied to a prefix only. The table '
+        'obligations (compatible / strict, decided by computation, with a sound syntactic inclusion test for patterns) are re-proved on '
+        'every run; deviations are recorded item by item. Tied by correspondence of outcome and stored value on 34 000 (converter, '
+        'value) pairs and an oracle using Python re on the schema\'s own patterns, through the API and through load().',
+   note='Axioms: none. XML Schema built-in types are upper-bounded by "any string" (NCName/ID/IDREF: no colon, no blank), which only '
+        'widens the acceptance claim.',
+   tech='Coq proof (verified regex matcher, per-kind lemmas) + regenerated converter and schema tables + correspondence',
+   ref='5/C15'),
  'C16': dict(
    text='Proof (Coq): addObject returns "./x" and the object is stored in folder "x/" (default, explicit, slashed names, nesting); every '
         'embedded object of the tree, at any depth, has content.xml and styles.xml in the folder its reference names, declared with its '
